@@ -4,7 +4,7 @@ import json, os, glob
 V = os.path.dirname(os.path.dirname(os.path.abspath(__file__)))
 print("| seed | breaks | change (summary) | needs | own check (quick) | key reported |")
 print("|---|---|---|---|---|---|")
-for d in sorted(glob.glob(os.path.join(V, "seeded", "C[0-9][0-9][ab]"))):
+for d in sorted(glob.glob(os.path.join(V, "seeded", "C[0-9][0-9][a-z]"))):
     m = json.load(open(os.path.join(d, "meta.json")))
     try:
         det = json.load(open(os.path.join(d, "detect.json")))
